@@ -53,8 +53,13 @@ def sizes : List Nat := [0, 0, 4, 16, 32, 33, 100, 200]
 def bufSz : List Nat := [8, 64, 65, 200, 1000, 5000, 33000]
 
 def threshold (P : Params) (lp : Nat) : Nat :=
-  P.thrBase + (if P.thrSpread = 0 then 0
-    else (mix (P.seed ^^^ (0xabcd + UInt64.ofNat lp))).toNat % P.thrSpread)
+  -- `thrSpread ≥ 1000` encodes two values: every `thrSpread / 1000`-th LP satisfies its predicate already at `LP_INIT`
+  -- (threshold 0), the others use the spread `thrSpread % 1000`
+  let zmod := P.thrSpread / 1000
+  let spread := P.thrSpread % 1000
+  if zmod ≠ 0 ∧ lp % zmod = 0 then 0 else
+  P.thrBase + (if spread = 0 then 0
+    else (mix (P.seed ^^^ (0xabcd + UInt64.ofNat lp))).toNat % spread)
 
 /-- xoshiro256** step = the `random_u64` macro of `lib/random/xoroshiro.h` -/
 structure Rng where
